@@ -130,6 +130,9 @@ func (o *obsKV) Put(key, val []byte) error {
 	if o.park {
 		id := idOfKey(key)
 		g := make(chan bool, 1)
+		if old, dup := o.gates[id]; dup { // id handed out twice: let the earlier logger go ahead
+			old <- true
+		}
 		o.gates[id] = g
 		o.park = false
 		o.mu.Unlock()
@@ -193,9 +196,12 @@ func (d *driver) open(reg []string) error {
 func (d *driver) closeAndAbort() {
 	d.h.Close()
 	if d.obs != nil {
-		for _, g := range d.obs.gates {
+		d.obs.mu.Lock()
+		for id, g := range d.obs.gates {
 			g <- false
+			delete(d.obs.gates, id)
 		}
+		d.obs.mu.Unlock()
 		for item, ch := range d.done {
 			<-ch
 			delete(d.done, item)
@@ -302,8 +308,14 @@ func (d *driver) exec(o *op) {
 		}
 	case "finish":
 		id := d.idOf[o.Item]
+		d.obs.mu.Lock()
 		g := d.obs.gates[id]
 		delete(d.obs.gates, id)
+		d.obs.mu.Unlock()
+		if g == nil { // can only happen if the store handed the same id to two loggers
+			impl["err"] = "no-gate"
+			return
+		}
 		g <- true
 		err := <-d.done[o.Item]
 		delete(d.done, o.Item)
@@ -380,7 +392,7 @@ func runCase(k *kase, dir string) {
 	path := filepath.Join(dir, strings.ReplaceAll(k.ID, "/", "_")+".db")
 	os.Remove(path)
 	defer os.Remove(path)
-	kind, msg := hx.Guard(60*time.Second, func() {
+	kind, msg := hx.Guard(20*time.Second, func() {
 		d := &driver{path: path, plain: k.Plain, log: &callLog{}, commits: map[string]corewal.Commit{}, done: map[string]chan error{}, idOf: map[string]uint64{}}
 		if err := d.open(k.Reg); err != nil {
 			k.Crash = "open:" + err.Error()
@@ -470,6 +482,16 @@ func genCase(r *hx.Rng, plain bool, maxOps int) *kase {
 	}
 	k := &kase{Plain: plain, Reg: g.regList()}
 	nops := r.Range(3, maxOps)
+	if r.Chance(12) {
+		// long prefix of logs: ids cross the one-hex-digit boundary (15 -> 16), where an unpadded or
+		// differently ordered key encoding would change the scan order
+		for i, n := 0, r.Range(14, 20); i < n; i++ {
+			it := g.item()
+			k.Ops = append(k.Ops, &op{Op: "log", Typ: g.pickReg(), Item: it})
+			g.finished, g.live = append(g.finished, it), append(g.live, it)
+		}
+		nops += len(k.Ops)
+	}
 	for len(k.Ops) < nops {
 		c := r.Intn(100)
 		switch {
